@@ -26,6 +26,7 @@ mod frame;
 mod held;
 mod hostile;
 mod ids;
+mod ioread;
 mod life;
 mod limits;
 mod peer;
@@ -109,6 +110,7 @@ fn main() {
         "sessionwire" => sessionwire::main(&opts),
         "life" => life::main(&opts),
         "typed" => typed::main(&opts),
+        "ioread" => ioread::main(&opts),
         "held" => held::main(&opts),
         "pipeline" => pipeline::main(&opts),
         "probe-to-value" => typed::probe_to_value(&opts),
